@@ -67,8 +67,11 @@ func (pnf *PageNumberFinder) FindPagination(root *html.Node, pageURL *nurl.URL) 
 	url := *pageURL
 	url.Path = strings.TrimSuffix(url.Path, "/")
 	url.RawPath = url.Path
-	// Page infos carry their URL in escaped form (URL.String), so the page's own URL is compared in that form
-	strPageURL := url.String()
+	// Page infos carry their URL in escaped form (URL.String), so the page's own URL is compared in that form.
+	// The entry for the page itself is made by the detector, which strips user info from the document URL.
+	ownURL := url
+	ownURL.User = nil
+	strPageURL := ownURL.String()
 
 	paramInfo := pnf.FindOutlink(root, &url)
 	if paramInfo.Type != info.PageNumber {
